@@ -41,7 +41,7 @@ class Prop(BaseProp):
     def run_case(self, idx, rng):
         res = CaseResult()
         single = rng.random() < 0.25
-        outmode = rng.choice(["abs", "rel", "nested", "parent", "prepopulated", "prepopulated"])
+        outmode = rng.choice(["abs", "rel", "nested", "parent", "prepopulated", "prepopulated", "blank-ends"])
         home_has_cfg = rng.random() < 0.5
         recursive = rng.random() < 0.7
         rst = {"file_extensions_in_titles": rng.random() < 0.3, "headers": list(rng.choice(["#*=-", "=", "^~"]))}
@@ -92,7 +92,11 @@ class Prop(BaseProp):
             fsrun.write_yaml(cfg, {"rst": rst, "input": inp_cfg})
             out_abs = {"abs": os.path.join(sb, "out", "docs"), "rel": os.path.join(work, "build", "docs"),
                        "nested": os.path.join(inp, "docs_out"), "parent": work,
-                       "prepopulated": os.path.join(sb, "out", "docs")}[outmode]
+                       "prepopulated": os.path.join(sb, "out", "docs"),
+                       # a directory name that ends (and one that starts) with a blank, next to a directory of the trimmed name
+                       "blank-ends": os.path.join(sb, "out", rng.choice(["api docs ", " docs", "docs  "]))}[outmode]
+            if outmode == "blank-ends":
+                os.makedirs(os.path.join(sb, "out", os.path.basename(out_abs).strip()))
             foreign = {}
             if outmode == "prepopulated":
                 for fn in FOREIGN:
@@ -106,7 +110,7 @@ class Prop(BaseProp):
             else:
                 target = inp
             base = [target] + (["-r"] if (recursive and not single) else []) + ["-s", cfg] + (["-p", prefix] if prefix else [])
-            out_arg = out_abs if outmode in ("abs", "prepopulated", "parent") else os.path.relpath(out_abs, work)
+            out_arg = out_abs if outmode in ("abs", "prepopulated", "parent", "blank-ends") else os.path.relpath(out_abs, work)
             # ---------- run 1: stdout mode (must not write anything)
             fr0 = fsrun.run_monitored(sb, base, work, home, order=fsrun.make_order(rng, rng.choice(fsrun.ORDER_MODES[:4])), snapshot_root=sb)
             res.count("runs_stdout")
